@@ -1138,8 +1138,11 @@ static uint32_t round_it(int negative, uint32_t round_value, uint32_t check_valu
  */
 static uintmax_t round_to_int(uintmax_t round_value, uint32_t *digits, int units_digit, uint32_t *lsd) {
     uint32_t *work_digit = digits + units_digit + 1;
+    /* the parity of the value being rounded determines which way an exact tie goes */
+    uint32_t parity = (uint32_t) (round_value & 1);
 
-    return round_value + ((lsd < work_digit) ? 0 : round_it(0, 0, *work_digit, work_digit, lsd));
+    return (lsd < work_digit) ? round_value
+            : ((round_value - parity) + round_it(0, parity, *work_digit, work_digit, lsd));
 }
 
 static char *to_digits(double d, int scale) {
